@@ -90,7 +90,7 @@ def parse_outcome(parser, text, positions=False, meta=False, tree=True, seconds=
     try:
         with budget(seconds):
             t = parser.parse(text, **kw)
-    except Hang:
+    except (Hang, MemoryError):
         return {'out': 'hang', 'ui': False, 'cls': 'Hang'}
     except Exception as e:
         return error_json(e)
